@@ -226,6 +226,14 @@ def discharge(u, ob, cxs, st):
             return
         if k == "call:index" or k == "call:index_mut":
             base, ix = sym.expr(b, t["args"][0]), sym.expr(b, t["args"][1])
+            nm_ = mir.norm(mir.callee(t)[0] or "")
+            if "std::string::String as std::ops::Index" in nm_ or "core::str::" in nm_ or "<str as std::ops::Index" in nm_ or nm_.startswith("core::str::traits::"):
+                # slicing a str panics also when a bound is not a char boundary: only whole-string ranges (0 / len) are accepted
+                def edge(x):
+                    return x is None or x[:2] == ("const", 0) or (x[0] == "call" and x[1].split("::")[-1] == "len" and x[2] and sym.sources(x[2][0]) == sym.sources(base))
+                rs = ix[3] if ix[0] == "agg" and "Range" in str(ix[1]) else None
+                if rs is None or not all(edge(x) for x in rs):
+                    return
             ok, h = prove_index(cx, base, ix, bb)
             if ok:
                 ob.status, ob.how = "D2", h
